@@ -1,6 +1,6 @@
 (* Proofs about the serveHls composition (AuthServeHls.v) *)
 From Lal Require Import Common.LBytes Auth.AuthStr Auth.AuthStrProofs Auth.AuthSimple Auth.AuthPaths Auth.AuthBlacklist
-  Auth.AuthServeHls Auth.AuthSpec Auth.AuthBlacklistProofs Auth.AuthPathsProofs.
+  Auth.AuthServeHls Auth.AuthSpec Auth.AuthBlacklistProofs Auth.AuthPathsProofs Auth.AuthSimpleProofs.
 From Coq Require Import Lia.
 Open Scope Z_scope.
 
@@ -8,32 +8,50 @@ Section ServeHlsProofs.
   Variable md5raw : bytes -> bytes.
   Variable parse_query : bytes -> option (list (bytes * bytes)).
   Variable lower_uni : bytes -> bytes.
-  Notation serve := (serve_hls md5raw parse_query lower_uni).
+  Variable parse_query_all : bytes -> list (bytes * bytes).
+  Notation serve := (serve_hls md5raw parse_query lower_uni parse_query_all).
+  Notation handler := (hls_handler parse_query_all).
 
-  Lemma sh_run_tagged_snd cfg root ops : forall t now,
-    map snd (sh_run_tagged md5raw parse_query lower_uni cfg root t now ops) = sh_run md5raw parse_query lower_uni cfg root t now ops.
+  Lemma sh_run_tagged_snd cfg sub root ops : forall st now,
+    map snd (sh_run_tagged md5raw parse_query lower_uni parse_query_all cfg sub root st now ops)
+    = sh_run md5raw parse_query lower_uni parse_query_all cfg sub root st now ops.
   Proof.
-    induction ops as [|o r IH]; intros t now; [reflexivity|].
+    induction ops as [|o r IH]; intros st now; [reflexivity|].
     destruct o as [ip path q|ip d|s]; cbn [sh_run_tagged sh_run]; try apply IH.
-    destruct (serve cfg root t now ip path q) as [t' resp]. cbn [map snd]. now rewrite IH.
+    destruct (serve cfg sub root st now ip path q) as [st' resp]. cbn [map snd]. now rewrite IH.
   Qed.
 
-  (* one request: a listed address whose expiry has not passed gets no content - whatever
-     it asks for (playlist or fragment, either URL form, any query) - and every live
-     entry stays listed *)
-  Lemma serve_listed cfg root t now ip k path q u :
-    bl_lookup ip t = Some u -> now <= u ->
-    bl_lookup ip (fst (serve cfg root t now k path q)) = Some u /\
-    (k = ip -> no_content (snd (serve cfg root t now k path q))).
+  (* the handler never touches the black-list, and answers neither "auth failed" nor "blocked" *)
+  Lemma handler_spec sub root st path q :
+    hs_bl (fst (handler sub root st path q)) = hs_bl st /\
+    reaches_handler (snd (handler sub root st path q)) /\
+    (forall p, snd (handler sub root st path q) = HrFile p -> hls_serve_file path root = Some p).
+  Proof.
+    unfold hls_handler, reaches_handler.
+    destruct (hls_serve_file path root) as [f|] eqn:Ef;
+      destruct sub; cbn [fst snd];
+      repeat match goal with |- context [if ?b then _ else _] => destruct b; cbn [fst snd hs_bl] end;
+      repeat split; try discriminate; intros p H; now inversion H.
+  Qed.
+
+  (* one request: a listed address whose expiry has not passed gets neither content nor a
+     session - whatever it asks for (playlist or fragment, either URL form, any query,
+     sub-session feature on or off) - and every live entry stays listed *)
+  Lemma serve_listed cfg sub root st now ip k path q u :
+    bl_lookup ip (hs_bl st) = Some u -> now <= u ->
+    bl_lookup ip (hs_bl (fst (serve cfg sub root st now k path q))) = Some u /\
+    (k = ip -> no_content (snd (serve cfg sub root st now k path q))).
   Proof.
     intros Hl Hle. unfold serve_hls.
     match goal with |- context [negb ?b] => destruct b end; cbn [negb].
-    - destruct (has_live t ip k u now Hl Hle) as [H1 _].
-      destruct (bl_has t k now) as [t' b] eqn:E. cbn [fst] in H1.
-      destruct b; cbn [fst snd].
-      + split; [exact H1|]. intros _ p. discriminate.
-      + split; [exact H1|]. intros ->. destruct (has_live t ip ip u now Hl Hle) as [_ H2]. rewrite E in H2. discriminate.
-    - cbn [fst snd]. split; [exact Hl|]. intros _ p. discriminate.
+    - destruct (has_live (hs_bl st) ip k u now Hl Hle) as [H1 _].
+      destruct (bl_has (hs_bl st) k now) as [t' b] eqn:E. cbn [fst] in H1.
+      destruct b.
+      + cbn [fst snd hs_bl]. split; [exact H1|]. intros _. split; intros ?; discriminate.
+      + destruct (handler_spec sub root (mk_hls_state t' (hs_sessions st) (hs_next st)) path q) as (Hb & _ & _).
+        rewrite Hb. cbn [hs_bl]. split; [exact H1|]. intros ->.
+        destruct (has_live (hs_bl st) ip ip u now Hl Hle) as [_ H2]. rewrite E in H2. discriminate.
+    - cbn [fst snd]. split; [exact Hl|]. intros _. split; intros ?; discriminate.
   Qed.
 
   Lemma sh_total_sleep_nonneg ip ops : Forall (sh_op_ok ip) ops -> 0 <= sh_total_sleep ops.
@@ -41,39 +59,85 @@ Section ServeHlsProofs.
     induction 1 as [|o r Ho Hr IH]; [cbn; lia|]. destruct o; cbn [sh_total_sleep]; try exact IH. cbn in Ho. lia.
   Qed.
 
-  Theorem hls_blacklisted_no_content cfg root ops : forall t now ip u,
-    bl_lookup ip t = Some u -> Forall (sh_op_ok ip) ops -> now + sh_total_sleep ops <= u ->
+  Theorem hls_blacklisted_no_content cfg sub root ops : forall st now ip u,
+    bl_lookup ip (hs_bl st) = Some u -> Forall (sh_op_ok ip) ops -> now + sh_total_sleep ops <= u ->
     Forall (fun kr => fst kr = ip -> no_content (snd kr))
-           (sh_run_tagged md5raw parse_query lower_uni cfg root t now ops).
+           (sh_run_tagged md5raw parse_query lower_uni parse_query_all cfg sub root st now ops).
   Proof.
-    induction ops as [|o r IH]; intros t now ip u Hl Hok Hle; [constructor|].
+    induction ops as [|o r IH]; intros st now ip u Hl Hok Hle; [constructor|].
     inversion Hok as [|? ? Ho Hr]; subst.
     pose proof (sh_total_sleep_nonneg ip r Hr) as Hnn.
     destruct o as [k path q|k d|s]; cbn [sh_run_tagged sh_total_sleep] in *.
     - assert (Hnow : now <= u) by lia.
-      destruct (serve_listed cfg root t now ip k path q u Hl Hnow) as [H1 H2].
-      destruct (serve cfg root t now k path q) as [t' resp]. cbn [fst snd] in *.
+      destruct (serve_listed cfg sub root st now ip k path q u Hl Hnow) as [H1 H2].
+      destruct (serve cfg sub root st now k path q) as [st' resp]. cbn [fst snd] in *.
       constructor; [exact H2|]. apply (IH _ _ ip u); auto.
-    - apply (IH _ _ ip u); auto. cbn in Ho. now rewrite lookup_add_other.
+    - apply (IH _ _ ip u); auto. cbn [hs_bl]. cbn in Ho. now rewrite lookup_add_other.
     - cbn in Ho. apply (IH _ _ ip u); auto. lia.
+  Qed.
+
+  (* admission: a request is seen by hls.ServerHandler <-> (for a playlist: the hls flag is
+     off or the URL carries the secret) and the address is not black-listed.  Nothing else in
+     the query string, the session table or the sub-session switch takes part. *)
+  Theorem hls_admission cfg sub root st now ip path q :
+    reaches_handler (snd (serve cfg sub root st now ip path q)) <->
+    ((beq (snd (filename_and_type (last_item_of_path path))) s_m3u8 = true ->
+      sa_hls_m3u8 cfg = false \/
+      carries_secret md5raw parse_query lower_uni cfg (ri_stream (get_request_info path root)) q)
+     /\ snd (bl_has (hs_bl st) ip now) = false).
+  Proof.
+    unfold serve_hls.
+    set (stream := ri_stream (get_request_info path root)).
+    assert (Hauth : on_hls md5raw parse_query lower_uni cfg stream q = SaOk <->
+                    (sa_hls_m3u8 cfg = false \/ carries_secret md5raw parse_query lower_uni cfg stream q)).
+    { unfold on_hls, on_hls_gen. destruct (sa_hls_m3u8 cfg).
+      - fold (check md5raw parse_query lower_uni cfg stream q). rewrite check_iff.
+        split; [now right|]. intros [H|H]; [discriminate|exact H].
+      - split; [now left|reflexivity]. }
+    destruct (beq (snd (filename_and_type (last_item_of_path path))) s_m3u8) eqn:Em.
+    - destruct (on_hls md5raw parse_query lower_uni cfg stream q) eqn:Ea; cbn [negb].
+      + destruct (bl_has (hs_bl st) ip now) as [t' b] eqn:Eb. cbn [snd]. destruct b.
+        * cbn [snd]. unfold reaches_handler. split; [intros [_ H]; congruence|intros [_ H]; discriminate].
+        * destruct (handler_spec sub root (mk_hls_state t' (hs_sessions st) (hs_next st)) path q) as (_ & Hr & _).
+          split; [intros _|intros _; exact Hr]. split; [intros _; now apply Hauth|reflexivity].
+      + cbn [snd]. unfold reaches_handler. split; [intros [H _]; congruence|].
+        intros [H _]. specialize (H eq_refl). apply Hauth in H. discriminate.
+      + cbn [snd]. unfold reaches_handler. split; [intros [H _]; congruence|].
+        intros [H _]. specialize (H eq_refl). apply Hauth in H. discriminate.
+      + cbn [snd]. unfold reaches_handler. split; [intros [H _]; congruence|].
+        intros [H _]. specialize (H eq_refl). apply Hauth in H. discriminate.
+    - cbn [negb]. destruct (bl_has (hs_bl st) ip now) as [t' b] eqn:Eb. cbn [snd]. destruct b.
+      + cbn [snd]. unfold reaches_handler. split; [intros [_ H]; congruence|intros [_ H]; discriminate].
+      + destruct (handler_spec sub root (mk_hls_state t' (hs_sessions st) (hs_next st)) path q) as (_ & Hr & _).
+        split; [intros _|intros _; exact Hr]. split; [discriminate|reflexivity].
+  Qed.
+
+  (* the decision about the secret looks at the first lal_secret value only: two query
+     strings whose parses agree on it are treated alike, whatever else they contain
+     (session_id, arbitrary keys, duplicates, order) *)
+  Lemma carries_secret_first_value cfg stream q1 q2 l1 l2 :
+    parse_query q1 = Some l1 -> parse_query q2 = Some l2 ->
+    query_get l1 secret_name = query_get l2 secret_name ->
+    (carries_secret md5raw parse_query lower_uni cfg stream q1 <-> carries_secret md5raw parse_query lower_uni cfg stream q2).
+  Proof.
+    intros H1 H2 He. unfold carries_secret.
+    split; intros (l & v & Hp & Hv & Hr); [exists l2|exists l1]; exists v.
+    - rewrite H1 in Hp. inversion Hp; subst l. rewrite He in Hv. auto.
+    - rewrite H2 in Hp. inversion Hp; subst l. rewrite <- He in Hv. auto.
   Qed.
 
   (* whatever is served lies inside the root, came past the black-list, and - for a
      playlist - past simple auth *)
-  Theorem hls_served_confined cfg root t now ip path q t' p :
-    root <> [] -> serve cfg root t now ip path q = (t', HrFile p) ->
-    inside root p /\ snd (bl_has t ip now) = false /\
-    (beq (snd (filename_and_type (last_item_of_path path))) s_m3u8 = true ->
-     on_hls md5raw parse_query lower_uni cfg (ri_stream (get_request_info path root)) q = SaOk).
+  Theorem hls_served_confined cfg sub root st now ip path q st' p :
+    root <> [] -> serve cfg sub root st now ip path q = (st', HrFile p) ->
+    inside root p /\ reaches_handler (snd (serve cfg sub root st now ip path q)).
   Proof.
-    intros Hr. unfold serve_hls.
-    destruct (beq (snd (filename_and_type (last_item_of_path path))) s_m3u8) eqn:Em.
-    - destruct (on_hls md5raw parse_query lower_uni cfg (ri_stream (get_request_info path root)) q) eqn:Ea; cbn [negb]; try discriminate.
-      destruct (bl_has t ip now) as [t1 b] eqn:Eb. destruct b; [discriminate|].
-      destruct (hls_serve_file path root) as [f|] eqn:Ef; [|discriminate].
-      intros H. inversion H; subst. repeat split; auto. now apply (serve_confined root path).
-    - cbn [negb]. destruct (bl_has t ip now) as [t1 b] eqn:Eb. destruct b; [discriminate|].
-      destruct (hls_serve_file path root) as [f|] eqn:Ef; [|discriminate].
-      intros H. inversion H; subst. repeat split; auto; [now apply (serve_confined root path)|discriminate].
+    intros Hr H. split; [|rewrite H; split; discriminate].
+    revert H. unfold serve_hls.
+    match goal with |- context [negb ?b] => destruct b end; cbn [negb]; [|discriminate].
+    destruct (bl_has (hs_bl st) ip now) as [t1 b]. destruct b; [discriminate|].
+    intros H.
+    destruct (handler_spec sub root (mk_hls_state t1 (hs_sessions st) (hs_next st)) path q) as (_ & _ & Hf).
+    rewrite H in Hf. cbn [snd] in Hf. apply (serve_confined root path); auto.
   Qed.
 End ServeHlsProofs.
